@@ -1460,7 +1460,8 @@ class FakeSocket:
     @command((Key(set), Key(set)), (Key(set),))
     def pfmerge(self, dest, *sources):
         "Merge N different HyperLogLogs into a single one."
-        self.sunionstore(dest, *sources)
+        # An existing destination is one of the merged inputs
+        self.sunionstore(dest, dest, *sources)
         return OK
 
     # Sorted set commands
